@@ -44,12 +44,12 @@ CHECKS = {
    note="Trusted: the independent serializer/layout, the allocation meter (runtime/metrics, single goroutine), the NaN-aware equality. Workers run under ulimit -v 4 GiB; an unsurvivable allocation kills the worker and is attributed to the journalled run (class process-crash, seed-only replay). Success on truncated/error-interrupted input is only counted: the statement demands a geometry or an error, not rejection. Failing allocations/syscalls inside the Go runtime cannot be injected.",
    technique="deterministic simulation of a faulty store/stream: enumerated storage and reader faults per seeded item, allocation meter, tape-minimised replay"),
  "C18": dict(engine="sim-osm", cat="exploration", ref="DESIGN.md §3",
-   text="The real ExtractXML (worker pool of real goroutines, channel, RWMutex-guarded maps, pass loop, osmxml scanner, errgroup) runs under a token-passing scheduler that takes every scheduling decision at every lock acquisition, channel operation, spawn and join from the seed (strategies: round-robin, uniform, sticky, PCT priorities, long worker stalls, starve-one; 1-8 workers), over a simulated file (legal short and (0,nil) reads, an I/O error at byte k of pass p, a failing Seek) and a context cancelled at a chosen scheduler step. Seeded documents (<=41 elements, shared nodes, closed ways, dangling refs with ids coinciding across types, relations of relations with cycles, any element order; one run in 25 as PBF through ExtractPBF) and keep functions (tags, bounds, all). The build step announces every Lock/RLock of encoding/osm that carries no hook (tools/hookfill on a scratch copy), so unannounced lock windows are schedulable too. RWMutex writer preference is modelled (a writer that has called Lock blocks later readers), so read-lock order inversions deadlock in simulation as they do in reality. Oracle: the sequential least-fixpoint model (key sets and stored values), Check()==nil iff nothing dangles, Filter by tags/all equals the model's filter and is idempotent, termination without deadlock within 2|doc|+2 passes; under an injected fault only an error or the exact model result with a nil error is accepted.",
-   note="Trusted: the scheduler's yield placement is complete for lock-protected code (a change that removes a lock is a data race outside this design); osmxml/encoding-xml are synchronous; for PBF runs osmpbf's own decoder goroutines are unsimulated (deterministic output; such runs get no injected read error or cancellation); unsynchronised data races (no lock or channel operation between the racing accesses) are invisible to a token scheduler; Filter's own map order is not behind a seam (evaluated 4x per run, 64x in replay); CountTags and Geom are not part of the statement and are not checked. Workers left behind by extract's error returns are counted, not reported (C18 is silent about them).",
+   text="The real ExtractXML (worker pool of real goroutines, channel, RWMutex-guarded maps, pass loop, osmxml scanner, errgroup) runs under a token-passing scheduler that takes every scheduling decision at every lock acquisition, channel operation, spawn and join from the seed (strategies: round-robin, uniform, sticky, PCT priorities, long worker stalls, starve-one; 1-8 workers), over a simulated file (legal short and (0,nil) reads, an I/O error at byte k of pass p, a failing Seek) and a context cancelled at a chosen scheduler step. Seeded documents (<=41 elements, shared nodes, closed ways, dangling refs with ids coinciding across types, relations of relations with cycles, any element order; one run in 25 as PBF through ExtractPBF) and keep functions (tags, bounds, all). The build step announces every Lock/RLock of encoding/osm that carries no hook (tools/hookfill on a scratch copy), so unannounced lock windows are schedulable too, and inserts plain yield points between all statements, live in one run in six (statement-level interleavings of unsynchronised code). RWMutex writer preference is modelled (a writer that has called Lock blocks later readers), so read-lock order inversions deadlock in simulation as they do in reality. Oracle: the sequential least-fixpoint model (key sets and stored values), Check()==nil iff nothing dangles, Filter by tags/all equals the model's filter and is idempotent, termination without deadlock within 2|doc|+2 passes; under an injected fault only an error or the exact model result with a nil error is accepted.",
+   note="Trusted: the scheduler's yield placement is complete for lock-protected code (a change that removes a lock is a data race outside this design); osmxml/encoding-xml are synchronous; for PBF runs osmpbf's own decoder goroutines are unsimulated (deterministic output; such runs get no injected read error or cancellation); effects below statement granularity (torn/reordered memory accesses, the runtime's concurrent-map-write detection) are invisible to a token scheduler; Filter's own map order is not behind a seam (evaluated 4x per run, 64x in replay); CountTags and Geom are not part of the statement and are not checked. Workers left behind by extract's error returns are counted, not reported (C18 is silent about them).",
    technique="deterministic simulation: token-passing scheduler over real goroutines (seeded interleavings, stalls), simulated file/seek faults and cancellation, sequential reference model, tape-minimised replay"),
 }
 
-HOOK_COMMITS = ["d39f006", "035e079", "6cff694", "3c5fbe4", "85aa2e6"]
+HOOK_COMMITS = ["d39f006", "035e079", "6cff694", "3c5fbe4", "85aa2e6", "3e5ac0a"]
 
 def main():
     checks = []
